@@ -6,6 +6,7 @@ STRING constructor of NumericValue; `EncodeDecimal` shows that round trip is the
 import CoCoVerif.Lemmas.EncodeDecimal
 import CoCoVerif.Model.Program
 import CoCoVerif.Lemmas.AddrOther
+import CoCoVerif.Lemmas.EncodeResolve
 
 namespace CoCo.Asm
 open CoCo
@@ -84,14 +85,13 @@ theorem numericOfStr_int (m : Mode) (hm : m = .extended ∨ m = .direct) (z : In
     · simp [h, posNum, initHint, postInit]
     · by_cases h' : z.natAbs < 256 <;> simp [h, posNum, initHint, postInit, h']
 
-/-- closed form of `resolve` on an expression whose two operands are numeric literals -/
-theorem resolve_expr_numeric (a b : Nat) (ha hb : Option Nat) (ma mb : Mode) (na nb : Bool)
-    (op : Char) (m : Mode) (ae : Bool) (t : SymTab) :
-    (Value.expr (.numeric a ha ma na) (.numeric b hb mb nb) op m ae).resolve t =
+/-- closed form of one level of `resolve` on an expression whose two operands are numeric literals, whatever the lookup -/
+theorem resolveStep_expr_numeric (gs : Str → R Value) (a b : Nat) (ha hb : Option Nat) (ma mb : Mode) (na nb : Bool)
+    (op : Char) (m : Mode) (ae : Bool) :
+    resolveStep gs (Value.expr (.numeric a ha ma na) (.numeric b hb mb nb) op m ae) =
       (match modelArith op (sInt a na) (sInt b nb) with
        | none => .error .other
        | some z => numResult (resMode ma mb z) z) := by
-  simp only [Value.resolve, Value.isExtendedLike, Value.mode]
   change (match modelArith op (sInt a na) (sInt b nb) with
     | none => (.error .other : R Value)
     | some z => match numericOfStr (if z < 0 then '-' :: (toString z.natAbs).toList else (toString z.natAbs).toList)
@@ -104,32 +104,74 @@ theorem resolve_expr_numeric (a b : Nat) (ha hb : Option Nat) (ma mb : Mode) (na
     simp only [resMode_eq]
     exact numericOfStr_int _ (resMode_cases ma mb z) z
 
-/-! ### symbols inside expressions -/
+/-- ... at any fuel but 0 (the operands are literals: nothing is looked up) -/
+theorem resolveF_expr_numeric (n : Nat) (a b : Nat) (ha hb : Option Nat) (ma mb : Mode) (na nb : Bool)
+    (op : Char) (m : Mode) (ae : Bool) (t : SymTab) :
+    resolveF (n + 1) (Value.expr (.numeric a ha ma na) (.numeric b hb mb nb) op m ae) t =
+      (match modelArith op (sInt a na) (sInt b nb) with
+       | none => .error .other
+       | some z => numResult (resMode ma mb z) z) := by
+  rw [resolveF_succ]; exact resolveStep_expr_numeric _ a b ha hb ma mb na nb op m ae
+
+/-- closed form of `resolve` on an expression whose two operands are numeric literals -/
+theorem resolve_expr_numeric (a b : Nat) (ha hb : Option Nat) (ma mb : Mode) (na nb : Bool)
+    (op : Char) (m : Mode) (ae : Bool) (t : SymTab) :
+    (Value.expr (.numeric a ha ma na) (.numeric b hb mb nb) op m ae).resolve t =
+      (match modelArith op (sInt a na) (sInt b nb) with
+       | none => .error .other
+       | some z => numResult (resMode ma mb z) z) :=
+  resolveF_expr_numeric _ a b ha hb ma mb na nb op m ae t
+
+/-! ### symbols inside expressions
+
+Since fix 0f280be a symbol whose table entry is an EQU EXPRESSION (`isExpression`) is evaluated where it is used; an
+entry of any other kind is taken as it is, as before. -/
+
+theorem lookStep_symbol_plain {n : Nat} {t : SymTab} {x : Str} {mx : Mode} {s : Value} (hx : t.get? x = some s)
+    (he : s.isExpression = false) (hs : s.isSymbol = false) :
+    lookStep (getSymF n t) (.symbol x mx) = lookStep (getSymF n t) s := by
+  rw [lookStep_symbol, getSymF_plain hx he, lookStep_atom _ _ hs]
 
 theorem resolve_expr_symbol_left (x : Str) (mx : Mode) (s r : Value) (op : Char) (m : Mode) (ae : Bool)
-    (t : SymTab) (hx : t.get? x = some s) (hs : s.isSymbol = false) :
+    (t : SymTab) (hx : t.get? x = some s) (hs : s.isSymbol = false) (he : s.isExpression = false) :
     (Value.expr (.symbol x mx) r op m ae).resolve t = (Value.expr s r op m ae).resolve t := by
-  cases s <;> simp_all [Value.resolve, Value.isSymbol]
+  rw [resolve_eq_step, resolve_eq_step]
+  simp only [resolveStep, lookStep_symbol_plain hx he hs]
 
 theorem resolve_expr_symbol_right (x : Str) (mx : Mode) (s l : Value) (op : Char) (m : Mode) (ae : Bool)
-    (t : SymTab) (hx : t.get? x = some s) (hs : s.isSymbol = false) :
+    (t : SymTab) (hx : t.get? x = some s) (hs : s.isSymbol = false) (he : s.isExpression = false) :
     (Value.expr l (.symbol x mx) op m ae).resolve t = (Value.expr l s op m ae).resolve t := by
-  cases s <;> simp_all [Value.resolve, Value.isSymbol]
+  rw [resolve_eq_step, resolve_eq_step]
+  simp only [resolveStep, lookStep_symbol_plain hx he hs]
 
 theorem resolve_expr_undefined_left (x : Str) (mx : Mode) (r : Value) (op : Char) (m : Mode) (ae : Bool)
     (t : SymTab) (hx : t.get? x = none) :
     (Value.expr (.symbol x mx) r op m ae).resolve t = .error .other := by
-  simp [Value.resolve, hx]
+  rw [resolve_eq_step]
+  simp only [resolveStep, lookStep_symbol, getSymF_none hx]
 
 theorem resolve_expr_undefined_right (x : Str) (mx : Mode) (l : Value) (op : Char) (m : Mode) (ae : Bool)
     (t : SymTab) (hx : t.get? x = none) :
     (Value.expr l (.symbol x mx) op m ae).resolve t = .error .other := by
-  simp only [Value.resolve, hx]
+  rw [resolve_eq_step]
+  simp only [resolveStep, lookStep_symbol, getSymF_none hx]
   split <;> simp_all
 
-theorem resolve_congr_lookup (v : Value) (t1 t2 : SymTab) (h : ∀ k, t1.get? k = t2.get? k) :
-    v.resolve t1 = v.resolve t2 := by
-  cases v <;> simp [Value.resolve, h]
+/-- a symbol whose table entry is an EQU EXPRESSION, as an operand: the value of that expression takes its place
+(when that value is not a symbol — it never is: `resolve` returns numbers, labels and label expressions) -/
+theorem resolve_expr_symbol_left_expr (x : Str) (mx : Mode) (s s' r : Value) (op : Char) (m : Mode) (ae : Bool)
+    (t : SymTab) (hx : t.get? x = some s) (he : s.isExpression = true) (hr : resolveF t.length s t = .ok s')
+    (hs : s'.isSymbol = false) :
+    (Value.expr (.symbol x mx) r op m ae).resolve t = (Value.expr s' r op m ae).resolve t := by
+  rw [resolve_eq_step, resolve_eq_step]
+  simp only [resolveStep, lookStep_symbol, getSymF_expr hx he, hr, lookStep_atom _ _ hs]
+
+theorem resolve_expr_symbol_right_expr (x : Str) (mx : Mode) (s s' l : Value) (op : Char) (m : Mode) (ae : Bool)
+    (t : SymTab) (hx : t.get? x = some s) (he : s.isExpression = true) (hr : resolveF t.length s t = .ok s')
+    (hs : s'.isSymbol = false) :
+    (Value.expr l (.symbol x mx) op m ae).resolve t = (Value.expr l s' op m ae).resolve t := by
+  rw [resolve_eq_step, resolve_eq_step]
+  simp only [resolveStep, lookStep_symbol, getSymF_expr hx he, hr, lookStep_atom _ _ hs]
 
 /-! ### calculate_address_offset -/
 
